@@ -658,6 +658,8 @@ pub fn judge_fault_free(plan: &ClientPlan, run: &ClientRun) -> Judged {
                                 let EndSpec::Abort(c) = cleanup.eod.end else { unreachable!() };
                                 if o.result.is_ok() {
                                     j.fail("C19", "eod_refusal_swallowed", name, format!("end-of-day was refused with 0x{c:02x} but {name} returned Ok"));
+                                    // C20's side of it: an abort is never reported as success (A0 apart, which is not this branch)
+                                    j.fail("C20", "abort_as_success", format!("{name}/eod"), format!("the terminal aborted the end-of-day behind {name} with 0x{c:02x} but {name} returned Ok"));
                                 } else if let Err(e) = identifies_code(&o.result, c, false) {
                                     j.fail("C20", "abort_code", format!("{name}/eod"), e);
                                 }
